@@ -47,12 +47,15 @@ def run_scenario(prog, cfg, timeout_ms=600000, only=None):
         t = ThreadProg(f"worker{i}", "worker")
         t.add_call([t_done])
         threads.append(t)
-    w = ThreadProg("waiter", "waiter")
-    w.add_call([t_wait])
-    threads.append(w)
+    nw = cfg.get("waiters", 1)          # several tasks waiting on the same group (e.g. two concurrent Context::term())
+    for j in range(nw):
+        w = ThreadProg("waiter" if nw == 1 else f"waiter{j}", "waiter")
+        w.add_call([t_wait])
+        threads.append(w)
     world = t_wait.paths[0]["world"]
-    K = cfg.get("K", 3 * n + cfg.get("wait_ops", 8) + 2)
+    K = cfg.get("K", 3 * n + nw * cfg.get("wait_ops", 8) + 2)
     sysm = System(world, threads, K)
+    wis = list(range(n, n + nw))
     wi = n
     count = world.atomics[0]
     notif = world.notifies[0]
@@ -66,20 +69,25 @@ def run_scenario(prog, cfg, timeout_ms=600000, only=None):
         if r == z3.sat:
             e["schedule"] = sysm.schedule(m)
         res["queries"].append(e)
-    q("cover.waiter-returns", z3.Or([sysm.finished(wi, s) for s in range(1, K + 1)]), expect_unsat=False)
+    q("cover.waiter-returns", z3.And([z3.Or([sysm.finished(w_, s) for s in range(1, K + 1)]) for w_ in wis]), expect_unsat=False)
     bad = []
-    wt = threads[wi]
     for s in range(K + 1):
         stt = sysm.st[s]
         workers_done = z3.And([sysm.finished(i, s) for i in range(n)])
-        for node in wt.nodes:
-            if node.leaf or node.op is None:
-                continue
-            for guard, c, _ in node.children:
-                if (not c.leaf) and c.op == "notify_await":
-                    arg = z3.substitute(c.arg, *c.names.values()) if (z3.is_expr(c.arg) and c.names) else c.arg
-                    parked = z3.And(stt["node"][wi] == node.id, wt.subst(guard, c.names), z3.Not(z3.UGT(stt["gen"][notif], BV(arg))))
-                    bad.append(z3.And(workers_done, parked, stt["val"][count] == 0))
+        # every other thread is finished or parked too: nobody is left who could still wake this waiter
+        for wi in wis:
+            wt = threads[wi]
+            for node in wt.nodes:
+                if node.leaf or node.op is None:
+                    continue
+                for guard, c, _ in node.children:
+                    if (not c.leaf) and c.op == "notify_await":
+                        arg = z3.substitute(c.arg, *c.names.values()) if (z3.is_expr(c.arg) and c.names) else c.arg
+                        parked = z3.And(stt["node"][wi] == node.id, wt.subst(guard, c.names), z3.Not(z3.UGT(stt["gen"][notif], BV(arg))),
+                                        stt["permit"][notif] == 0)
+                        others_done = z3.And([sysm.finished(o, s) for o in wis if o != wi]) if nw > 1 else z3.BoolVal(True)
+                        bad.append(z3.And(workers_done, others_done, parked, stt["val"][count] == 0))
+    wi = wis[0]
     q("waiter-sleeps-with-count-zero", z3.Or(bad) if bad else z3.BoolVal(False))
     q("counter-underflow", sysm.st[K]["underflow"])
     pan, trunc = [], []
